@@ -45,6 +45,7 @@ NvecsWhy(a, o) ==
       ELSE IF ~o.exact THEN "columns-are-not-the-rotated-unit-vectors"
       ELSE IF a.flipsign /\ o.cols # exp THEN "wrong-vectors-order-or-sign"
       ELSE IF ~a.flipsign /\ \E j \in 1..a.r : o.cols[j] # exp[j] /\ o.cols[j] # Neg(exp[j]) THEN "wrong-vectors-or-order"
+      ELSE IF ~o.receiver_unchanged THEN "receiver-changed-by-the-call"
       ELSE "ok"
 
 Tol9N == 10000     \* 1e-5 in units of 1e-9 (ARPACK tolerance)
@@ -57,6 +58,8 @@ NvecsObsWhy(a, o) ==
   ELSE IF ~o.decreasing THEN "eigenvalues-not-in-decreasing-order"
   ELSE IF o.dominant_dev > Tol9N THEN "not-the-dominant-subspace"
   ELSE IF a.flipsign /\ ~o.sign_rule THEN "sign-normalisation"
+  \* computing leading vectors is a query: every array of the holder is the same afterwards
+  ELSE IF ~o.receiver_unchanged THEN "receiver-changed-by-the-call"
   ELSE "ok"
 
 =============================================================================
